@@ -6,7 +6,7 @@
 //   -DC16_TENSORDOT  tensordot: run-time integer axes, compile-time integer axes (ct<1..4>), explicit axis-list pairs
 //   -DC16_KRON       kron
 //   -DC16_REFDUMP    (audit tool, no nmtools calls) main() prints "key<TAB>R|shape<TAB>data" of the reference model for
-//                    every enumerated case; a NumPy script recomputes every line (see the final report / DESIGN section 3).
+//                    every enumerated case; /verif/audit/audit_c16.py recomputes every line with NumPy (DESIGN section 3).
 //
 // Case keys (all operands are all-dynamic ndarray_t<list<long>,list<size_t>>, data = ref::c16_lhs / ref::c16_rhs):
 //   matmul|impl|sa|sb        impl 1 = view::matmul / array::matmul, 2 = view::matmulv2 / eval
@@ -71,9 +71,10 @@ template <typename F> static void pairs_union(int d1, long e1, int d2, long e2, 
 // thorough: all ordered pairs over S(1..3,4) and over S(1..4,3)   (84^2 + 120^2 - 39^2 = 19935 pairs)
 template <typename F> static void shape_pairs(const nmc::Tier& t, F&& f) { if (t.thorough()) pairs_union(3, 4, 4, 3, f); else pairs_union(3, 3, 4, 2, f); }
 // tensordot (explicit axes multiply the space by up to 1312 pairings x sign spellings for two dim-4 operands):
-// quick   : all ordered pairs over S(1..3,3)                      (1521 pairs)
+// quick   : all ordered pairs over S(1..2,3) and over S(1..3,2)   (12^2 + 14^2 - 6^2 = 304 pairs; the sanitizer build
+//           needs ~6 ms per tensordot case, which rules out the 1.4e5 cases of S(1..3,3) for the quick tier)
 // thorough: all ordered pairs over S(1..3,4) and over S(1..4,2)   (84^2 + 30^2 - 14^2 = 7760 pairs)
-template <typename F> static void shape_pairs_td(const nmc::Tier& t, F&& f) { if (t.thorough()) pairs_union(3, 4, 4, 2, f); else pairs_union(3, 3, 0, 0, f); }
+template <typename F> static void shape_pairs_td(const nmc::Tier& t, F&& f) { if (t.thorough()) pairs_union(3, 4, 4, 2, f); else pairs_union(2, 3, 3, 2, f); }
 
 static long diag_len(const L& s, long off, long ax1, long ax2) {   // number of elements on the offset diagonal of axes (ax1, ax2), both >= 0
     long r0 = off >= 0 ? 0 : -off, c0 = off >= 0 ? off : 0; return std::max(0L, std::min(s[(size_t)ax1] - r0, s[(size_t)ax2] - c0));
